@@ -226,9 +226,7 @@ def run_check(prop, args, wdir):
 
     # determinism self-test (small in quick, larger in thorough)
     st = selftest(binp, wdir, prop, seed, 12 if tier == "quick" else 40, [1, 4] if tier == "quick" else [1, 4, 16, 2])
-    if st["mismatches"] > 0:
-        log("determinism self-test failed (exit 2): %s" % json.dumps(st))
-        return 2
+    selftest_mismatch = st["mismatches"] > 0  # reported as exit 2 below unless a verified violation explains it
     selftest_died = st["mismatches"] < 0  # a crash: the exploration below will find and classify it
 
     infra = []
@@ -388,6 +386,9 @@ def run_check(prop, args, wdir):
         log("VIOLATION property=%s replay=%s" % (prop, rpath))
     if violations:
         return 1
+    if selftest_mismatch:
+        log("determinism self-test failed (exit 2): %s" % json.dumps(st))
+        return 2
     if infra:
         log("infrastructure trouble (exit 2):")
         for i in infra:
